@@ -35,8 +35,8 @@ Qed.
 Definition special_code (r : option (list sp_action)) : N :=
   match r with None => 0 | Some [SpMknod _] => 1 | Some [SpUnlink; SpMknod _] => 2 | Some _ => 3 end.
 
-Theorem x_special_ok : forall nc ex umask src,
-  special_code (special_worker nc ex umask src) = x_parfile_special nc ex /\
-  special_code (special_worker nc ex umask src) = x_parblock_special nc ex.
-Proof. intros [|] [|] umask src; split; reflexivity. Qed.
+Theorem x_special_ok : forall nc ex same umask src,
+  special_code (special_worker nc ex same umask src) = x_parfile_special nc ex same /\
+  special_code (special_worker nc ex same umask src) = x_parblock_special nc ex same.
+Proof. intros [|] [|] [|] umask src; split; reflexivity. Qed.
 
